@@ -23,7 +23,7 @@ RULE = ('library constructor inputs x global duration settings: construct_repeti
         'construct_calibration_circuit (QUBIT / QUTRIT, 1..5 qubits); each under positive settings for READOUT, MICROWAVE, FLUX, RESET that are multiples of 0.25 and include '
         'microwave > readout, all equal, all 0.25 and 2^15.  Observed: extracted relation graph, listing (class, channels, start, end) and duration as constructed and after '
         'apply_modifiers().  Non-trivial: at least 2 QEC cycles (or 2 rounds entries / a QUTRIT calibration) so that repetition blocks, barriers and measurements interleave'
-        ' A third of the repetition-code inputs is run a second time as: fresh construction, apply_modifiers(), the duration read first, then the listing.')
+        ' A third of the repetition-code inputs is run a second time as: fresh construction, apply_modifiers(), the duration read first, then the listing. Three fixed inputs use a CompositeRepetitionCodeDescription (two ancillas active in the same layers, the last gate edge of one of them excluded or none) under microwave > flux.')
 
 
 def _env_corners(rng):
